@@ -658,10 +658,15 @@ public:
                             res.faults[QStringLiteral("stanza_before_authentication_or_bind")]++;
                         }
                         QByteArray from;
+                        bool explicitEmptyFrom = false;
                         const QString own = c.boundJid;
                         switch (op.arg(2)) {
-                        case 0: case 1:
+                        case 0:
                             break;   // no from
+                        case 1:
+                            explicitEmptyFrom = true;   // from='' (an empty address is not the sender's address either)
+                            res.faults[QStringLiteral("from_attribute_present_but_empty")]++;
+                            break;
                         case 2:
                             from = own.toUtf8();
                             break;
@@ -682,7 +687,7 @@ public:
                         }
                         static const char *tos[] = { "alice@example.org/desk", "alice@example.org", "bob@example.org", "example.org", "" };
                         const QByteArray to = tos[op.arg(3) % 5];
-                        const QByteArray fa = from.isEmpty() ? QByteArray() : " from='" + from + "'";
+                        const QByteArray fa = from.isEmpty() ? (explicitEmptyFrom ? QByteArray(" from=''") : QByteArray()) : " from='" + from + "'";
                         const QByteArray ta = to.isEmpty() ? QByteArray() : " to='" + to + "'";
                         const QByteArray mk = marker.toUtf8();
                         switch (op.arg(1)) {
